@@ -360,10 +360,21 @@ RESTART:
 		}
 		value.Set(st.assignable(left, right, value.Type()))
 	case reflect.Map:
+		if value.IsNil() {
+			// (reflect would panic with a runtime error)
+			left.errorf("can't assign to %s: the map is nil", left)
+		}
+		key := reflect.ValueOf(&fields[lef]).Elem()
+		if keyType := value.Type().Key(); !key.Type().AssignableTo(keyType) {
+			if keyType.Kind() != reflect.String {
+				left.errorf("can't assign to %s: %q is not a key of %s", left, fields[lef], getTypeString(value))
+			}
+			key = key.Convert(keyType)
+		}
 		if right.IsValid() {
 			right = st.assignable(left, right, value.Type().Elem())
 		}
-		value.SetMapIndex(reflect.ValueOf(&fields[lef]).Elem(), right)
+		value.SetMapIndex(key, right)
 	}
 }
 
